@@ -101,6 +101,7 @@ def judge_op(acc, sim, model, case, fn, expect_bytes=None):
     """Run one controller operation; compare result, memory and monitor."""
     acc.evaluations += 1
     e0 = len(sim.errors)
+    c0 = len(sim.cmds)
     try:
         res = fn()
     except Exception as e:
@@ -109,6 +110,20 @@ def judge_op(acc, sim, model, case, fn, expect_bytes=None):
                       "%s raised %s: %s" % (case["op"], type(e).__name__, e),
                       size=case.get("length", 0))
         return None
+    if "p" in case and "chip" in case and case["op"] in ("read", "write",
+                                                           "fill"):
+        # the simulated chip has one memory for all its cores, so the core a
+        # command is addressed to is checked on the command itself
+        for rec in sim.cmds[c0:]:
+            if rec["cmd"] in (2, 3, 5) and (tuple(rec["chip"]), rec["cpu"]) != (
+                    tuple(case["chip"]), case["p"]):
+                acc.violation(dict(kind="wrong_core", op=case["op"]), case,
+                              "%s for chip %r core %r: a command was "
+                              "addressed to chip %r core %r"
+                              % (case["op"], case["chip"], case["p"],
+                                 rec["chip"], rec["cpu"]),
+                              size=case.get("length", 0))
+                break
     if sim.errors[e0:]:
         acc.violation(dict(kind="malformed_command", op=case["op"]), case,
                       "%s: machine saw %s" % (case["op"], sim.errors[e0]),
@@ -333,6 +348,20 @@ def run_faults(params, tier, acc):
                 def run(ch, case=case):
                     one_fault_execution(case, ch, acc)
                 explore(run, bound=bound, budget=300)
+    # Sequence numbers wrap within one transfer (the connection's own
+    # generator with a 2-bit mask): five or six blocks, window 3, two
+    # datagrams lost.  Only losses - no duplicate or delayed reply ever
+    # exists, so the stale-reply finding D8 (C06) cannot interfere.
+    if k == 0:
+        for n in (40, 43):
+            case = dict(op=op + "_faults", buffer=8, window=3,
+                        address=0x60000000, length=n, seqmask=3,
+                        fates=["ok", "lost", "reply_lost"])
+            acc.nontrivial += 1
+
+            def run(ch, case=case):
+                one_fault_execution(case, ch, acc)
+            explore(run, bound=2, budget=400)
     acc.sample(dict(kind="faults", op=op, k=k, lengths_below=nl,
                     bound=bound))
 
@@ -346,7 +375,8 @@ def one_fault_execution(case, ch, acc):
     def fate(sim_, rec):
         if rec["cmd"] == 0:
             return ["ok"]
-        f = FATES[ch.choose(len(FATES), "fate")]
+        menu = case.get("fates") or FATES
+        f = menu[ch.choose(len(menu), "fate")]
         fates_taken.append(f)
         if f == "dup":
             return ["ok", "dup"]
@@ -355,6 +385,10 @@ def one_fault_execution(case, ch, acc):
     n, addr = case["length"], case["address"]
     with Session(sim, window=case.get("window", 3), n_tries=3,
                  timeout=0.5) as s:
+        if case.get("seqmask") is not None:
+            from rig.machine_control.scp_connection import seqs
+            for conn in s.mc.connections.values():
+                conn.seq = seqs(mask=case["seqmask"])
         model = Model(sim)
         c = dict(case, choices=None)
         if case["op"].startswith("read"):
